@@ -51,6 +51,11 @@ type Case struct {
 	Expired  []string  `json:"expired,omitempty"` // keys that get a 1 ms deadline which has passed before A starts
 	A        kit.Cmd   `json:"a"`
 	Pauses   []Pause   `json:"pauses"`
+	// Fine: the suspended command's operations on the keyspace and deadline maps (hook H9: before every
+	// Get/Set/Delete of a key) count as events too, so that it can be suspended inside its lock sections
+	// and between a look at a map and the lock that follows. A reader that does not take the key lock
+	// then sees the suspended command's work half done.
+	Fine bool `json:"fine,omitempty"`
 }
 
 var schedKeys = []string{"a", "b", "c", "l1", "l2", "s1", "s2", "h1", "z1", "x1"}
@@ -352,10 +357,15 @@ func genSched(t *rapid.T) Case {
 			c.Pre = append(c.Pre, kit.MkCmd("EXPIRE", k, "100000"))
 		}
 	}
+	c.Fine = rapid.Bool().Draw(t, "fine")
 	np := rapid.SampledFrom([]int{1, 1, 2}).Draw(t, "pauses")
 	at := 0
 	for i := 0; i < np; i++ {
-		at += rapid.IntRange(1, 3).Draw(t, "at")
+		if c.Fine {
+			at += rapid.IntRange(1, 7).Draw(t, "at-fine")
+		} else {
+			at += rapid.IntRange(1, 3).Draw(t, "at")
+		}
 		c.Pauses = append(c.Pauses, Pause{At: at, Run: genSchedCmd(t, fmt.Sprintf("B%d", i), false, near)})
 	}
 	return c
@@ -380,7 +390,16 @@ func Install() {
 			prev(kind, stripe)
 		}
 	}
+	memdb.VerifMapHook = func(kind string) {
+		if atomic.LoadInt32(&schedMode) == 1 && atomic.LoadInt32(&schedFine) == 1 {
+			if h, _ := schedHook.Load().(func(string, int)); h != nil {
+				h(kind, -1)
+			}
+		}
+	}
 }
+
+var schedFine int32
 
 type schedOp struct {
 	cmd       kit.Cmd
@@ -635,6 +654,10 @@ func Exec(c Case) kit.Outcome {
 			}
 		}
 	})
+	if c.Fine {
+		atomic.StoreInt32(&schedFine, 1)
+	}
+	defer atomic.StoreInt32(&schedFine, 0)
 	atomic.StoreInt32(&schedMode, 1)
 	defer atomic.StoreInt32(&schedMode, 0)
 	wg.Add(1)
@@ -667,6 +690,9 @@ func Exec(c Case) kit.Outcome {
 	o.NonTrivial = reached > 0
 	if len(c.Expired) > 0 {
 		o.Labels = append(o.Labels, "keys-past-their-deadline-but-still-stored")
+	}
+	if c.Fine {
+		o.Labels = append(o.Labels, "map-operations-count-as-events")
 	}
 	o.Labels = append(o.Labels, "A:" + strings.ToUpper(string(c.A[0])), fmt.Sprintf("A-lock-events:%d", min(events, 12)), fmt.Sprintf("suspensions-reached:%d", reached))
 	if blocked > 0 {
